@@ -241,6 +241,25 @@ def run_unit(ctx, u):
             c4 = calculate_num_filters_factor_image(4, rho)
             z = Tung2022DeepJSCCQEncoder(N=16, M=c4)(x)
             ctx.check(abs(z.numel() / x.numel() - rho) < 1e-9, "deepjscc:latent = bandwidth ratio", "tung2022q|formula-built encoder|deepjscc:latent = bandwidth ratio|differs", ratio=rho, latent=list(z.shape), M=c4)
+        # the documented channel-count options: a grayscale or 4-channel encoder/decoder pair returns the input's shape
+        from kaira.models.image import tung2022_deepjscc_q as TQ
+
+        for cch in (1, 4):
+            for size in (16, 32):
+                xg = torch.rand(2, cch, size, size)
+                csi = torch.full((2, 1), 10.0)
+                for nm_, mk in (
+                    ("tung2022q", lambda: (TQ.Tung2022DeepJSCCQEncoder(N=16, M=8, in_ch=cch), TQ.Tung2022DeepJSCCQDecoder(N=16, M=8, out_ch=cch), False)),
+                    ("tung2022q2", lambda: (TQ.Tung2022DeepJSCCQ2Encoder(N=16, M=8, in_ch=cch), TQ.Tung2022DeepJSCCQ2Decoder(N=16, M=8, out_ch=cch), True)),
+                ):
+                    ctx.case("channels", nm_, cch, size)
+                    try:
+                        e_, d_, needs_csi = mk()
+                        out = d_(e_(xg, csi), csi) if needs_csi else d_(e_(xg))
+                    except Exception as e:  # noqa: BLE001
+                        ctx.violation(f"{nm_}|in_ch=out_ch!=3|deepjscc:output shape = input shape|raised:{type(e).__name__}", channels=cch, size=size, error=str(e)[:200])
+                        continue
+                    ctx.check(tuple(out.shape) == tuple(xg.shape), "deepjscc:output shape = input shape", f"{nm_}|in_ch=out_ch!=3|deepjscc:output shape = input shape|differs", input=list(xg.shape), output=list(out.shape))
         ctx.sample({"unit": "bandwidth-ratio-formula", "strided_layers": [1, 2, 3, 4, 5], "ratios": ["1/12", "1/6", "1/4", "1/3", "1/2", "1", "2"]})
         return
 
